@@ -147,7 +147,11 @@ def wrap_variants(a):
 def render(pool_hex, args, is_llvm, covered, abs_):
     eargs, margs = [], []
     for a in args:
-        if a.get("wrap"):
+        if a.get("dup"):                               # the same directory / zip listed again: materialised once, passed again
+            nm = a["name"] + ("/wrap" if a.get("wrap") else "")
+            eargs.append({"kind": "ref", "name": nm})
+            margs.append(dict(a, name=nm))
+        elif a.get("wrap"):
             h, r = wrap_variants(a)
             eargs += [h, r]
             margs.append(dict(a, name=a["name"] + "/wrap"))
@@ -174,7 +178,6 @@ def evaluate(chk, pool, layouts, label, dist):
     prelude = "Definition HEADS : list bytes := %s." % vlib.coq(pool.heads())
     model = vlib.run_model(chk.pid, "Run.ShowProducer", exprs, prelude=prelude)
     groups = {}
-    kf = {e["key"]: e for e in vlib.known_findings(chk.pid)}
     dis = []
     for (args, ll, cov, ab, gid), m, case, ri, rm in zip(layouts, margs_l, cases, impl, model):
         chk.count()
@@ -190,11 +193,6 @@ def evaluate(chk, pool, layouts, label, dist):
         else:
             gi = eng_items(ri)
             got = contents(gi)
-        if got != exp and isinstance(got, str) and got.startswith("panic:Failed to parse ZIP file") and "dir-named-zip" in kf \
-                and any(a["kind"] == "dir" and a["name"].endswith(".zip") for a in m):
-            chk.known(kf["dir-named-zip"])       # re-confirmed on the implementation; nothing else to compare for this case
-            dist["known_dir_named_zip"] += 1
-            continue
         if got != exp:
             chk.violation({"kind": "oracle", "engine": "producer", "case": small, "impl": got, "expected": exp,
                            "clause": "every usable artifact is used exactly once (info/xml per file, gcno with the gcda of the same relative name of every archive, "
@@ -234,6 +232,7 @@ def evaluate(chk, pool, layouts, label, dist):
         dist["dir"] += ks.count("dir")
         dist["plain"] += ks.count("plain")
         dist["nested_arg"] += sum(1 for a in args if a.get("wrap"))
+        dist["repeated_args"] += sum(1 for a in args if a.get("dup"))
         dist["llvm"] += ll
         dist["covered"] += cov
         dist["abs_paths"] += ab
@@ -280,6 +279,19 @@ def gen_stream(chk, pool, n_layouts):
                     sh = list(args)
                     rng.shuffle(sh)
                     out.append((sh, ll, cov, rng.random() < 0.5, ("g", gid, ll, cov)))
+                    # the same directory / zip argument listed 2-3 times (adjacent, and separated): every listing counts
+                    conts = [a for a in args if a["kind"] in ("dir", "zip") and a["entries"]]
+                    if _rep == 0 and conts and not cov:
+                        a = rng.choice(conts)
+                        k = rng.choice([2, 3])
+                        pos = args.index(a)
+                        others = [x for x in args if x is not a]
+                        dups = [dict(a, dup=True)] * (k - 1)
+                        adj = args[:pos + 1] + dups + args[pos + 1:]                        # right after the first listing
+                        h = len(others) // 2
+                        sep = [a] + others[:h] + dups[:1] + others[h:] + dups[1:]           # the first listing materialises it: it stays first
+                        out.append((adj, ll, cov, rng.random() < 0.5, ("dup", gid, ll, cov)))
+                        out.append((sep, ll, cov, rng.random() < 0.5, ("dup", gid, ll, cov)))
     return out
 
 
@@ -345,7 +357,7 @@ def special_stream(pool):
         d1 = {"kind": "dir", "name": nm, "entries": [["a.info", n["info_a"], "info"], ["sub.xml/r.xml", n["xml_1"], "xml"], ["obj/file.gcno", n["llvm_gcno_file"], "gcno"], ["obj/file.gcda", n["llvm_gcda_file"], "gcda"]]}
         out.append(([d1], False, False, False, ("dir-ext", nm, 0)))
         out.append(([{"kind": "zip", "name": "other.info.zip", "entries": [["b.info", n["info_b"], "info"]]}, d1], True, True, True, ("dir-ext", nm, 1)))
-    # known finding dir-named-zip: a DIRECTORY argument whose name ends in .zip is opened as an archive
+    # a DIRECTORY argument whose name ends in .zip is a directory (fixed 93a0856)
     out.append(([{"kind": "dir", "name": "cov.zip", "entries": [["a.info", n["info_a"], "info"]]}], False, False, False, ("dir-named-zip", 0)))
     # a gcda archive alone must fail; gcno alone with --filter covered yields nothing but does not fail
     out.append(([{"kind": "zip", "name": "g.zip", "entries": [["m.gcda", n["gcc_gcda_main"], "gcda"]]}], False, False, False, ("gcda-only", 0)))
@@ -369,7 +381,7 @@ def parse_lcov_records(text):
     return {k: sorted(v) for k, v in recs.items()}
 
 
-RENAME = {"app/file.c": "app/file_c", "a.b.c": "a_b_c"}        # dotted stems and their dot-free twins
+RENAME = {"app/file.c": "app/file_c", "a.b.c": "a_b_c", "obj\\wf": "obj/wf_ref", "bs/deep\\er.x\\fb": "bs/deep/er_x/fb"}        # dotted / backslashed stems and their plain twins
 
 
 def undot(arts):
@@ -379,6 +391,8 @@ def undot(arts):
         if k in ("gcno", "gcda"):
             stem, ext = name.rsplit(".", 1)
             name = RENAME.get(stem, stem) + "." + ext
+        elif "\\" in name:
+            name = name.replace("\\", "/").lstrip("/")
         out.append((k, name, cid))
     return out
 
@@ -405,7 +419,9 @@ def cli_stream(chk, pool, n, dist):
                 ("gcno", "file_branch.gcno", names["llvm_gcno_file_branch"]), ("gcda", "file_branch.gcda", names["llvm_gcda_file_branch"]),
                 ("gcno", "deep/er/reader.gcno", names["llvm_gcno_reader"]), ("gcda", "lonely.gcda", names["gcda_lonely"]),
                 ("gcno", "app/file.c.gcno", names["llvm_gcno_file"]), ("gcda", "app/file.c.gcda", names["llvm_gcda_file"]), ("gcda", "app/file.gcda", names["llvm_gcda_file_branch"]),
-                ("gcno", "a.b.c.gcno", names["llvm_gcno_file_branch"]), ("gcda", "a.b.c.gcda", names["llvm_gcda_file_branch"]), ("gcda", "a.gcda", names["gcda_lonely"])]
+                ("gcno", "a.b.c.gcno", names["llvm_gcno_file_branch"]), ("gcda", "a.b.c.gcda", names["llvm_gcda_file_branch"]), ("gcda", "a.gcda", names["gcda_lonely"]),
+                ("gcno", "obj\\wf.gcno", names["llvm_gcno_file"]), ("gcda", "obj\\wf.gcda", names["llvm_gcda_file"]),
+                ("gcno", "bs/deep\\er.x\\fb.gcno", names["llvm_gcno_file_branch"]), ("gcda", "bs/deep\\er.x\\fb.gcda", names["llvm_gcda_file_branch"])]
     base = [("info", "a.info", names["info_a"]), ("info", "logs/b.info", names["info_b"]), ("info", "a.info", names["info_a2"]),
             ("xml", "rep/one.xml", names["xml_1"]), ("xml", "two.xml", names["xml_2"]), ("xml", "short.xml", names["short_jacoco"]),
             ("xml", "rep/straddle.xml", names["straddle_jacoco"]), ("decoy", "late.xml", names["decoy_xml_late"]),
@@ -413,6 +429,7 @@ def cli_stream(chk, pool, n, dist):
             ("info", "same/s.info", names["info_c"]), ("info", "same/s.info", names["info_c"]),
             ("info", "lib/.libs/d.info", names["info_dot"]), ("info", ".cov.info", names["info_dotfile"]),
             ("decoy", "decoy.info", names["decoy_info"]), ("decoy", "build.xml", names["decoy_xml"]), ("decoy", "notes.txt", names["txt"]),
+            ("info", "win\\cov\\w.info", names["info_win"]), ("xml", "rep\\w.xml", names["xml_2"]), ("gcda", "obj\\wf.gcda", names["llvm_gcda_file"]),
             ("gcda", "obj/file.gcda", names["llvm_gcda_file"])] + fixtures
     exp_orphan = ["DA:%d,0" % k for k in orphan_lines()]
     seq = [0]
@@ -478,6 +495,8 @@ def cli_stream(chk, pool, n, dist):
                 chk.violation({"kind": "oracle", "engine": "cli", "report": r, "clause": "both a.info files are used exactly once (line 1 of src/a.c: 1+2)"}, tag="cli")
             if "DA:1,10" not in r.get("src/c.c", []):
                 chk.violation({"kind": "oracle", "engine": "cli", "args": reps[0][0], "report": r, "clause": "same/s.info is given in two archives (same name, same bytes): both occurrences are used (line 1 of src/c.c: 5+5)"}, tag="cli")
+            if "DA:1,7" not in r.get("src/win.c", []):
+                chk.violation({"kind": "oracle", "engine": "cli", "args": reps[0][0], "report": sorted(r), "clause": "a tracefile whose name contains backslashes (win\\cov\\w.info) is used like any other"}, tag="cli")
             if "src/dot.c" not in r or "src/dotfile.c" not in r:
                 chk.violation({"kind": "oracle", "engine": "cli", "args": reps[0][0], "report": sorted(r), "clause": "lib/.libs/d.info and .cov.info are used however they are packaged"}, tag="cli")
         chk.nontrivial(["cli", label, filt, sorted(r)])
@@ -491,6 +510,17 @@ def cli_stream(chk, pool, n, dist):
         mz = split(fixtures, ("zip", "dir"))
         group("fixtures", [one("dir", fixtures), [nd[0], nd[1]], [nd[1], nd[0]], one("zip", fixtures), [nz[1], nz[0]], [mz[0], mz[1]], one("dir", undot(fixtures)),
                            [dict(one("dir", fixtures)[0], name="cov.profraw")], [dict(nd[1], name="data.gcda"), dict(nd[0], name="notes.xml")]], filt, False)
+        # the same directory / zip listed 2-3 times: every listing counts, exactly as if it were another archive with the same contents
+        for kind in ("dir", "zip"):
+            nts, dat = split(fixtures, (kind, kind))
+            dat2 = dict(dat, name="copy_of_" + dat["name"])
+            dat3 = dict(dat, name="third_" + dat["name"])
+            rep = {"kind": "ref", "name": dat["name"]}
+            group("twice-" + kind, [[nts, dat, dat2], [nts, dat, rep], [dat, nts, rep], [dat, rep, nts]], filt, False)
+            if filt is None:
+                group("thrice-" + kind, [[nts, dat, dat2, dat3], [dat, rep, nts, rep], [nts, dat, rep, rep]], filt, False)
+            allz = one(kind, fixtures)[0]
+            group("whole-twice-" + kind, [[allz, dict(allz, name="copy_of_" + allz["name"])], [allz, {"kind": "ref", "name": allz["name"]}]], filt, False)
         # everything, random packagings (one of them with the dotted stems renamed)
         for i in range(n):
             group("full%d" % i, [L.gen_layout(rng, base), L.gen_layout(rng, base), L.gen_layout(rng, undot(base))], filt, i == 0 and not filt)
@@ -511,9 +541,9 @@ def run(chk):
     chk.proofs()
     pool = L.standard_pool()
     dist = dict.fromkeys(["zip", "dir", "plain", "nested_arg", "llvm", "covered", "abs_paths", "panic_no_input", "items", "gcc_path_items",
-                          "multi_gcda_buffers", "known_dir_named_zip", "unsafe_zip_members", "short_or_straddling_jacoco_used", "cli_layout_groups", "cli_records", "cli_no_input_runs"], 0)
+                          "multi_gcda_buffers", "repeated_args", "unsafe_zip_members", "short_or_straddling_jacoco_used", "cli_layout_groups", "cli_records", "cli_no_input_runs"], 0)
     sp = special_stream(pool)             # may add blobs: before the generated stream renders the pool
-    lay = gen_stream(chk, pool, 24 if chk.tier == "quick" else 150)
+    lay = gen_stream(chk, pool, 20 if chk.tier == "quick" else 150)
     groups = evaluate(chk, pool, lay, "gen", dist)
     evaluate(chk, pool, sp, "special", dist)
     dist["layout_groups"] = len(groups)
@@ -525,7 +555,7 @@ def run(chk):
                        "each packaging in two argument orders, --llvm on/off x --filter covered on/off; grcov::producer (unbounded channel, items and extracted files read back) "
                        "vs Gallina work_items (item for item, incl. archive names, link numbers and temp-file names) vs the driver's reading of the property; all packagings of "
                        "one artifact set must give one multiset of item contents; hand-made stream (symlinks, duplicate zip names, the 256-byte signature window incl. invalid UTF-8 around the marker, zip members with absolute / '..' names); CLI stream (real binary, so main.rs's option plumbing is covered): LLVM fixtures incl. an orphan gcno, dotted stems (file.c.gcno) next to a decoy file.gcda, "
-                       "as one dir / notes+data dirs in both orders / zips / renamed stems / directories named cov.profraw, notes.xml, data.gcda, and the full pool in random packagings, each with and without --llvm x --filter {none, covered, uncovered}: one report per artifact set, "
+                       "as one dir / notes+data dirs in both orders / zips / renamed stems / directories named cov.profraw, notes.xml, data.gcda / the data directory or zip listed 2-3 times (= as many copies) / names with backslashes, and the full pool in random packagings, each with and without --llvm x --filter {none, covered, uncovered}: one report per artifact set, "
                        "orphan lines = llvm-cov's own listing (reader.c.0.gcov) with zero counts unless covered only; no usable input exits non-zero; non-trivial = distinct layout producing items")
     chk.cov["trusted_base"] = ["Coq kernel; vm_compute for the correspondence",
                                "walkdir and the zip crate: the list of (relative name, content) of each archive is computed by the driver from its own layout description "
@@ -545,7 +575,7 @@ def replay(chk, path):
     if "case" in r and "args" in r["case"]:
         c = r["case"]
         dist = dict.fromkeys(["zip", "dir", "plain", "nested_arg", "llvm", "covered", "abs_paths", "panic_no_input", "items", "gcc_path_items",
-                              "multi_gcda_buffers", "known_dir_named_zip", "unsafe_zip_members", "short_or_straddling_jacoco_used"], 0)
+                              "multi_gcda_buffers", "repeated_args", "unsafe_zip_members", "short_or_straddling_jacoco_used"], 0)
         evaluate(chk, pool, [(c["args"], c["is_llvm"], c["covered"], c.get("abs", False), "replay")], "replay", dist)
     else:
         chk.proofs()
